@@ -9,7 +9,8 @@ CLASSES = ["Signal", "RadioSignal", "IntensitySignal", "FullStokesSignal", "Base
 
 # ordinary dates, and UTC days that end in a leap second (86401 s long: naive Julian-date arithmetic is wrong there)
 T0S = ["2021-03-04T05:06:07.123456789", "2019-11-30T23:59:00.000000000", "2016-12-31T23:59:30.000000000",
-       "2015-06-30T12:00:00.250000000", "2000-01-01T12:00:00.5"]
+       "2015-06-30T12:00:00.250000000", "1975-05-05T05:05:05.500000000", "2055-11-11T11:11:11.111111111",
+       "2000-01-01T12:00:00.5"]
 
 
 def sample_shape(cls, nchan=3, extra=()):
